@@ -799,6 +799,23 @@ pub fn gen_scenario(family: &str, rng: &mut Rng) -> Scenario {
             }
         }
     }
+    // the stop button: stop_query() between two operations, or at the k-th goal attempt of the
+    // next search (one scenario in five for C05, one in eight otherwise; never in the fault-free
+    // control configuration)
+    let stops = if family == "C05" { rng.chance(1, 5) } else { rng.chance(1, 8) };
+    if stops && !fault_free {
+        let n = rng.range(1, 2);
+        for _ in 0..n {
+            let asks: Vec<usize> =
+                history.iter().enumerate().filter_map(|(i, op)| if matches!(op, Op::Next { .. } | Op::Solve { .. } | Op::SolveAll { .. }) { Some(i) } else { None }).collect();
+            if asks.is_empty() || history.len() >= 18 {
+                break;
+            }
+            let at = *rng.pick(&asks);
+            let after = if rng.chance(1, 3) { 0 } else { *rng.pick(&[1u64, 2, 3, 5, 8, 13, 30, 100, 400]) };
+            history.insert(at, Op::Stop { after });
+        }
+    }
     // a moment passes between make_query and make_base_node (C23 and C22 families)
     if family != "C05" {
         for op in history.iter_mut() {
